@@ -21,7 +21,7 @@ from .progs import (  # noqa: F401
 
 KINDS = ["while", "dowhile", "for", "forin", "forof", "switch", "lblock"]
 EXITS = ["fall", "break", "continue", "breakL", "continueL", "return", "throw"]
-ENCL = ["none", "if", "while", "dowhile", "for", "forin", "forof", "switch", "try", "trycatch", "catch", "finally", "lblock"]
+ENCL = ["none", "if", "while", "dowhile", "for", "forin", "forof", "switch", "try", "trycatch", "catch", "finally", "finallyx", "lblock"]
 CTXS = ["stmt", "plus-left", "plus-right", "arr", "obj", "arg", "arg-after", "cond", "map"]
 LOOPS = ("while", "dowhile", "for", "forin", "forof")
 
@@ -135,6 +135,9 @@ def _wrap_encl(E, B, llabel, sfx="", lname="L0"):
         return [L(try_([throw(s_("c"))], (exn, [log(et, id_(exn))] + B + [log(eb, num(0))]), None))]
     if E == "finally":
         return [L(try_([log(et, num(0))], None, [log(ef, num(0))] + B + [log(eb, num(0))]))]
+    if E == "finallyx":
+        # the finally block is entered by an exception; an exit from it discards the exception
+        return [L(try_([log(et, num(0)), throw(s_("fx" + sfx))], None, [log(ef, num(0))] + B + [log(eb, num(0))]))]
     if E == "lblock":
         return [L(block(log(et, num(0)), *B, log(eb, num(0))))]
     raise KeyError(E)
